@@ -185,9 +185,13 @@ CHECKS = {
                 "carries the binned mapping quality of its read. Ties: _parse_read on generated tuples and the whole Sample(...) on BAMs written by "
                 "pysam (flags, clips, shared names, both strands) vs the model; oracle from htslib's aligned pairs (depth and counts per position).",
         "design_ref": "DESIGN.md section 4 (C06)",
-        "note": "PARTIAL at theorem level: depth theorems for parseRead are stated for loci without multi-substitution sites (the merge step is "
-                "covered by the correspondence and the oracle); substitution/reference count exactness and the phase clause are decided by the "
-                "ties and the htslib oracle, not yet by theorems. indelpost support counts are inputs (trusted).",
+        "note": "PARTIAL at theorem level: the depth theorems hold for every locus at every position that is not part of a catalogued "
+                "multi-substitution site (mergeMnp_depth_away, depth_total_general: the merge step changes observations only at the positions of "
+                "its site); at those sites the merge is covered by the correspondence and the oracle. Count exactness is proved in the same scope: "
+                "shows_one_read (every read contributes exactly one non-insertion observation at a spanned position - the deleted-base marker, "
+                "the reference marker or the substitution to the read's base, as the specification function showsAt says) and "
+                "support_total_general (the support of an operation is the number of reads that show it). The phase clause and the insertion "
+                "observations are decided by the ties and the htslib oracle. indelpost support counts are inputs (trusted).",
         "technique": "Lean 4 proof (structural induction over CIGAR and read lists) + differential correspondence on tuples and pysam-written BAMs",
     },
     "C07": {
